@@ -232,7 +232,7 @@ theorem Inv2_step (hsv : Function.Injective N.svcId) (E : Link.Trace) (st : Step
     (hw : WF lower st.pre) (hd : Disc lower st) (hd2 : Disc2 lower st) (hi : Inv2 lower N E st.pre) :
     Inv2 lower N (E ++ stepEvents lower N st) st.post := by
   have him := Inv2_mono lower N E (stepEvents lower N st) st.pre hi
-  obtain ⟨t, b, h, h', out⟩ := st
+  obtain ⟨t, b, h, h', out, ad⟩ := st
   simp only at hs hbt hw hi him ⊢
   cases b with
   | register s oid now =>
@@ -278,7 +278,7 @@ theorem Inv2_step (hsv : Function.Injective N.svcId) (E : Link.Trace) (st : Step
   | unregister s oid now =>
     have hnow : now = t := hbt now rfl
     -- the service leaves the registry at this step
-    have hrem : sigma lower N s ∈ removes lower N ⟨t, .unregister s oid now, h, h', out⟩ := by
+    have hrem : sigma lower N s ∈ removes lower N ⟨t, .unregister s oid now, h, h', out, ad⟩ := by
       simp only [Host.step, unregRemove_eq, Option.some.injEq, Prod.mk.injEq] at hs
       obtain ⟨rfl, _⟩ := hs
       obtain ⟨e, he, hk⟩ := hd2
@@ -292,7 +292,7 @@ theorem Inv2_step (hsv : Function.Injective N.svcId) (E : Link.Trace) (st : Step
       unfold regRemove at he'
       rw [List.mem_filter] at he'
       simp [hk'] at he'
-    have hev := mem_unregs_step lower N E ⟨t, .unregister s oid now, h, h', out⟩ (sigma lower N s) hrem
+    have hev := mem_unregs_step lower N E ⟨t, .unregister s oid now, h, h', out, ad⟩ (sigma lower N s) hrem
     simp only [Host.step, unregRemove_eq, Option.some.injEq, Prod.mk.injEq] at hs
     obtain ⟨rfl, _⟩ := hs
     refine ⟨fun e he => him.reg e (regRemove_sub lower _ _ _ he), ?_, ?_, ?_, ?_, him.closing⟩
@@ -413,12 +413,12 @@ theorem Inv2_step (hsv : Function.Injective N.svcId) (E : Link.Trace) (st : Step
       simp only [Option.some.injEq, Prod.mk.injEq] at hs
       have hreg' : h'.reg = [] := by rw [← hs.1]
       -- every registered service leaves the registry
-      have hrem : ∀ e ∈ h.reg, sigma lower N e.svc ∈ removes lower N ⟨t, .unregisterAll now, h, h', out⟩ := by
+      have hrem : ∀ e ∈ h.reg, sigma lower N e.svc ∈ removes lower N ⟨t, .unregisterAll now, h, h', out, ad⟩ := by
         intro e he
         simp only [removes, List.mem_filter, Bool.not_eq_true', List.contains_eq_mem, decide_eq_false_iff_not, sig, List.mem_map, hreg']
         exact ⟨⟨e, he, rfl⟩, by simp⟩
       have hclos : ∀ r ∈ h.reg.flatMap (fun e => broadcastAnswers e.svc (some 0) true), ∀ alias, WfPtr r alias →
-          ∃ u, (u, sigR lower N r alias) ∈ Link.unregs (E ++ stepEvents lower N ⟨t, .unregisterAll now, h, h', out⟩) ∧
+          ∃ u, (u, sigR lower N r alias) ∈ Link.unregs (E ++ stepEvents lower N ⟨t, .unregisterAll now, h, h', out, ad⟩) ∧
             now + (Gen.unregisterTime : Int) = u + 125 * ((1 : Nat) : Int) := by
         intro r hr alias hwf
         rw [List.mem_flatMap] at hr
@@ -484,7 +484,7 @@ theorem Inv2_emit (E : Link.Trace) (st : Step)
   have him := Inv2_mono lower N E (stepEvents lower N st) st.pre hi
   have hkind : r.rdata.kind = .ptr := by rw [hwf.1]; rfl
   have notpos : PosRec r → False := fun hpos => by unfold PosRec at hpos; omega
-  obtain ⟨t, b, h, h', out⟩ := st
+  obtain ⟨t, b, h, h', out, ad⟩ := st
   simp only at hs hbt hw hi him hp ⊢
   cases b with
   | register s oid now =>
@@ -662,24 +662,107 @@ theorem run_byes (hsv : Function.Injective N.svcId) :
   | cons s0 rest ih =>
     intro h T E hrun hw hi hd pre st post hsplit p hp r hr alias hwf h0
     cases hrun with
-    | cons _ h' _ t b out _ hs hT hbt hrest =>
+    | cons _ h' _ t b out ad _ hs hT hbt hrest =>
       cases pre with
       | nil =>
         simp only [List.nil_append, List.cons.injEq] at hsplit
         obtain ⟨rfl, _⟩ := hsplit
-        have := Inv2_emit lower N E ⟨t, b, h, h', out⟩ hs hbt hw hi p hp r hr alias hwf h0
+        have := Inv2_emit lower N E ⟨t, b, h, h', out, ad⟩ hs hbt hw hi p hp r hr alias hwf h0
         simpa [events] using this
       | cons p0 pre' =>
         simp only [List.cons_append, List.cons.injEq] at hsplit
         obtain ⟨rfl, hrest'⟩ := hsplit
-        have hd0 := hd ⟨t, b, h, h', out⟩ (by simp)
+        have hd0 := hd ⟨t, b, h, h', out, ad⟩ (by simp)
         have hw' := wf_step lower h h' b out hw hs
-        have hi' := Inv2_step lower N hsv E ⟨t, b, h, h', out⟩ hs hbt hw hd0.1 hd0.2 hi
+        have hi' := Inv2_step lower N hsv E ⟨t, b, h, h', out, ad⟩ hs hbt hw hd0.1 hd0.2 hi
         obtain ⟨u, hu, h1, h2⟩ := ih h' t _ hrest hw' hi' (fun st hst => hd st (by simp [hst])) pre' st post hrest' p hp r hr
           alias hwf h0
         refine ⟨u, ?_, h1, h2⟩
         rw [List.cons_append, events_cons, ← List.append_assoc]
         exact hu
+
+/-- **a datagram with a TTL-0 record goes to the multicast group**: it is not the query handler's immediate answer (that block
+only sends records of registered services, whose TTLs are positive); every other emitting block calls `async_send(out)` without
+an address (`dstOf`, generated leaves) -/
+theorem bye_dst (E : Link.Trace) (st : Step) (hs : st.pre.step lower st.b = some (st.post, st.out))
+    (hi : Inv2 lower N E st.pre) (p : Pkt) (hp : p ∈ st.out) (r : Rec) (hr : r ∈ p.answers ++ p.additionals) (h0 : r.ttl = 0) :
+    dstOf st.b st.adst = none := by
+  obtain ⟨t, b, h, h', out, ad⟩ := st
+  simp only at hs hi hp ⊢
+  cases b with
+  | register s oid now =>
+    simp only [Host.step] at hs
+    split at hs
+    · simp at hs
+    split at hs
+    · simp at hs
+    simp only [Option.some.injEq, Prod.mk.injEq] at hs
+    obtain ⟨_, rfl⟩ := hs
+    cases hp
+  | update s oid now =>
+    simp only [Host.step] at hs
+    split at hs
+    · simp at hs
+    simp only [Option.some.injEq, Prod.mk.injEq] at hs
+    obtain ⟨_, rfl⟩ := hs
+    cases hp
+  | unregister s oid now =>
+    simp only [Host.step, Option.some.injEq, Prod.mk.injEq] at hs
+    obtain ⟨_, rfl⟩ := hs
+    cases hp
+  | task oid ttl a due => exact Zc.GenFacts.Link.dstOf_task _ _ _ _ _
+  | answer rs =>
+    exfalso
+    simp only [Host.step] at hs
+    split at hs
+    · rename_i hall
+      simp only [Option.some.injEq, Prod.mk.injEq] at hs
+      obtain ⟨_, hout⟩ := hs
+      rw [← hout] at hp
+      have hpe := emit_mem h _ p hp
+      subst hpe
+      have hrr : r ∈ rs := by simpa using hr
+      have := live_pos h.reg hi.reg r (List.all_eq_true.mp hall r hrr)
+      unfold PosRec at this
+      omega
+    · simp at hs
+  | enqueue delayed now draw answers =>
+    simp only [Host.step] at hs
+    split at hs
+    · split at hs
+      · simp only [Option.some.injEq, Prod.mk.injEq] at hs
+        obtain ⟨_, rfl⟩ := hs
+        cases hp
+      · simp only [Option.some.injEq, Prod.mk.injEq] at hs
+        obtain ⟨_, rfl⟩ := hs
+        cases hp
+    · simp at hs
+  | ready delayed now => exact Zc.GenFacts.Link.dstOf_ready _ _ _
+  | unregisterAll now => exact Zc.GenFacts.Link.dstOf_unregisterAll _ _
+  | allStep due => exact Zc.GenFacts.Link.dstOf_allStep _ _
+  | close =>
+    simp only [Host.step, Option.some.injEq, Prod.mk.injEq] at hs
+    obtain ⟨_, rfl⟩ := hs
+    cases hp
+
+/-- along a disciplined run every datagram carrying a TTL-0 record is sent to the multicast group -/
+theorem run_bye_dst (hsv : Function.Injective N.svcId) :
+    ∀ (steps : List Step) (h : Host) (T : Int) (E : Link.Trace), IsRun lower h T steps → WF lower h → Inv2 lower N E h →
+      (∀ st ∈ steps, Disc lower st ∧ Disc2 lower st) →
+      ∀ st ∈ steps, ∀ p ∈ st.out, ∀ r ∈ p.answers ++ p.additionals, r.ttl = 0 → dstOf st.b st.adst = none := by
+  intro steps
+  induction steps with
+  | nil => intro h T E _ _ _ _ st hst; cases hst
+  | cons s0 rest ih =>
+    intro h T E hrun hw hi hd st hst p hp r hr h0
+    cases hrun with
+    | cons _ h' _ t b out ad _ hs hT hbt hrest =>
+      rcases List.mem_cons.mp hst with rfl | hst
+      · exact bye_dst lower N E ⟨t, b, h, h', out, ad⟩ hs hi p hp r hr h0
+      · have hd0 := hd ⟨t, b, h, h', out, ad⟩ (by simp)
+        have hw' := wf_step lower h h' b out hw hs
+        have hi' := Inv2_step lower N hsv E ⟨t, b, h, h', out, ad⟩ hs hbt hw hd0.1 hd0.2 hi
+        exact ih h' t _ hrest hw' hi' (fun st hst => hd st (by simp [hst])) st hst p hp r hr h0
 
 theorem ptrOf_zero_item {s : Link.Svc} {items : List Link.Item} (h : Link.bye s items = true) :
     ∃ full, Link.Item.ptr s 0 full ∈ items := by
@@ -718,32 +801,63 @@ theorem K2s_of_run (hsv : Function.Injective N.svcId) (steps : List Step) (T0 : 
     · simp only [Link.lastOr, List.getLastD]
       simpa using h2
 
+/-- **goodbyes are multicast** (the route half of K2): on the link trace of every disciplined timed run a send that carries a PTR
+with TTL 0 goes to the multicast group -/
+theorem bye_mcast_of_run (hsv : Function.Injective N.svcId) (steps : List Step) (T0 : Int)
+    (hrun : IsRun lower Host.init T0 steps) (hd : ∀ st ∈ steps, Disc lower st ∧ Disc2 lower st) :
+    ∀ sd ∈ Link.sends (events lower N steps), ∀ s, Link.bye s sd.items = true → sd.dst = none := by
+  intro sd hsd s hbye
+  obtain ⟨st, hst, p, hp, rfl⟩ := mem_sends_events lower N steps sd hsd
+  simp only at hbye ⊢
+  obtain ⟨full, hitem⟩ := ptrOf_zero_item hbye
+  unfold itemsOf at hitem
+  rw [List.mem_filterMap] at hitem
+  obtain ⟨r, hr, hri⟩ := hitem
+  obtain ⟨alias, _, _, h0⟩ := ptrItem_some lower N p r s 0 full hri
+  exact run_bye_dst lower N hsv steps Host.init T0 [] hrun (wf_init lower) (Inv2_init lower N) hd st hst p hp r hr h0.symm
+
 /-! ### K2 and K6 for a link trace whose hosts are runs of the machine -/
 
-/-- every host's part of the link trace — its sends (instant and items, both ways), the `reg`s and `unreg`s of its services — is
-that of a disciplined, fair timed run of the C08 host machine that is not closed before the end of the window -/
+/-- every host's part of the link trace that the C08 host machine owns — its sends **that carry a pointer record** (instant, items
+and destination, both ways; a host's questions belong to its browsers and its probes, not to this machine), the `reg`s and `unreg`s
+of its services — is that of a disciplined, fair timed run of the machine that is not closed before the end of the window -/
 def Generated (tr : Link.Trace) (endT : Int) : Prop :=
   ∀ hid : Nat, ∃ (N : Naming) (steps : List Step) (T0 : Int),
     N.host = hid ∧ Function.Injective N.tyId ∧ Function.Injective N.svcId ∧
     IsRun lower Host.init T0 steps ∧ (∀ st ∈ steps, Disc lower st ∧ Disc2 lower st) ∧ Spaced lower N [] steps ∧
     Fair steps endT ∧ Open steps ∧
-    (∀ sd ∈ Link.sends tr, sd.h = hid → ∃ sd' ∈ Link.sends (events lower N steps), sd'.t = sd.t ∧ sd'.items = sd.items) ∧
-    (∀ sd' ∈ Link.sends (events lower N steps), ∃ sd ∈ Link.sends tr, sd.h = hid ∧ sd.t = sd'.t ∧ sd.items = sd'.items) ∧
+    (∀ sd ∈ Link.sends tr, sd.h = hid → Link.ptrSvcs sd.items ≠ [] →
+      ∃ sd' ∈ Link.sends (events lower N steps), sd'.t = sd.t ∧ sd'.items = sd.items ∧ sd'.dst = sd.dst) ∧
+    (∀ sd' ∈ Link.sends (events lower N steps), ∃ sd ∈ Link.sends tr, sd.h = hid ∧ sd.t = sd'.t ∧ sd.items = sd'.items ∧ sd.dst = sd'.dst) ∧
     (∀ x ∈ Link.regs (events lower N steps), x ∈ Link.regs tr) ∧
     (∀ x ∈ Link.unregs tr, x.2.owner = hid → x ∈ Link.unregs (events lower N steps)) ∧
     (∀ x ∈ Link.unregs (events lower N steps), x ∈ Link.unregs tr)
 
-/-- goodbyes are multicast (the machine does not model the route of a datagram; a unicast reply never carries a TTL-0 PTR: C11) -/
+/-- goodbyes are multicast -/
 def ByeMulticast (tr : Link.Trace) : Prop :=
   ∀ sd ∈ Link.sends tr, ∀ s, Link.bye s sd.items = true → sd.dst = none
+
+/-- … which is no longer a hypothesis: the projection carries the route of every block (`dstOf`), and the sends of the link trace
+are the projection's sends, destination included -/
+theorem byeMulticast_of_generated (tr : Link.Trace) (endT : Int) (hg : Generated lower tr endT) : ByeMulticast tr := by
+  intro sd hsd s hbye
+  obtain ⟨N, steps, T0, _, _, hsv, hrun, hd, _, _, _, hsends, _⟩ := hg sd.h
+  obtain ⟨sd', hsd', _, hit, hdst⟩ := hsends sd hsd rfl
+    (List.ne_nil_of_mem (Link.ptrOf_mem (Link.bye_iff.mp hbye).choose_spec))
+  rw [← hdst]
+  exact bye_mcast_of_run lower N hsv steps T0 hrun hd sd' hsd' s (by rw [hit]; exact hbye)
 
 theorem Generated_K6 (tr : Link.Trace) (endT : Int) (hg : Generated lower tr endT) : GeneratedK6 lower tr := by
   intro hid
   obtain ⟨N, steps, T0, h1, h2, h3, h4, h5, h6, _, _, h9, _, h11, h12, _⟩ := hg hid
-  exact ⟨N, steps, T0, h1, h2, h3, h4, fun st hst => (h5 st hst).1, h6, h9, h11, h12⟩
+  refine ⟨N, steps, T0, h1, h2, h3, h4, fun st hst => (h5 st hst).1, h6, ?_, h11, h12⟩
+  intro sd hsd hh hne
+  obtain ⟨sd', hsd', e1, e2, _⟩ := h9 sd hsd hh hne
+  exact ⟨sd', hsd', e1, e2⟩
 
-theorem K2_of_generated (tr : Link.Trace) (endT : Int) (hg : Generated lower tr endT) (hb : ByeMulticast tr) :
+theorem K2_of_generated (tr : Link.Trace) (endT : Int) (hg : Generated lower tr endT) :
     Link.K2 Link.Cfg.paper tr endT = true := by
+  have hb := byeMulticast_of_generated lower tr endT hg
   unfold Link.K2
   rw [Bool.and_eq_true]
   constructor
@@ -757,7 +871,7 @@ theorem K2_of_generated (tr : Link.Trace) (endT : Int) (hg : Generated lower tr 
     | false => rfl
     | true =>
       obtain ⟨N, steps, T0, hN, _, hsv, hrun, hd, _, _, _, hsends, _, _, _, hun⟩ := hg sd.h
-      obtain ⟨sd', hsd', ht, hit⟩ := hsends sd hsd rfl
+      obtain ⟨sd', hsd', ht, hit, _⟩ := hsends sd hsd rfl (List.ne_nil_of_mem hs)
       have hk := K2s_of_run lower N hsv steps T0 hrun hd
       have h1 := List.all_eq_true.mp (List.all_eq_true.mp hk sd' hsd') s (by rw [hit]; exact hs)
       rw [hit, hbye] at h1
@@ -783,7 +897,7 @@ theorem K2_of_generated (tr : Link.Trace) (endT : Int) (hg : Generated lower tr 
     · right
       rw [Link.mcastAt_iff] at h2 ⊢
       obtain ⟨sd', hsd', hh, ht, _, hbye⟩ := h2
-      obtain ⟨sd, hsd, hsh, hst, hsi⟩ := hback sd' hsd'
+      obtain ⟨sd, hsd, hsh, hst, hsi, _⟩ := hback sd' hsd'
       exact ⟨sd, hsd, hsh, by rw [hst, ht], hb sd hsd u.2 (by rw [hsi]; exact hbye), by rw [hsi]; exact hbye⟩
 
 end Zc.Bridge
